@@ -257,7 +257,7 @@ func ruleC05(w *World) {
 				continue
 			}
 			seenRet[r] = true
-			f := r.Parent()
+			f := retParent(r)
 			{
 				ms, ok := sliceBase(r.Results[0]).(*ssa.MakeSlice)
 				if !ok {
